@@ -251,7 +251,10 @@ func (fs *ReaderFS) writeFile(path string, info hackpadfs.FileInfo, initialBuf *
 		return fserrors.WithMessage(err, "opening destination file")
 	}
 	defer func() {
-		_ = f.Close()
+		closeErr := f.Close()
+		if returnedErr == nil {
+			returnedErr = fserrors.WithMessage(closeErr, "close: copying file")
+		}
 		if returnedErr == nil {
 			fs.ps.Emit(path) // only emit for non-dirs, dirs will wait until the total tar read completes to ensure correctness
 		}
